@@ -14,7 +14,7 @@ class RuleUnit:
         self.task = task
         self.name = task.qualname
         from contracts.rule_specs import SPECS
-        self.props = {"C01", "C02", "C12", "C15", "C19"}
+        self.props = {"C01", "C02", "C12", "C14", "C15", "C19"}
         # which properties the rule-specific clauses serve is declared in the spec itself; a static
         # superset is enough to select units
         self.props |= SPEC_PROPS.get(task.name, set())
@@ -31,7 +31,7 @@ class RuleUnit:
         obs, info = verify_function(
             world, t.qualname, lambda it: R.build_args(it, world, t), lambda it, a: it.call(t.func, a, {}),
             R.rule_ensures(world, t), ["C01"], cover=[("rule-can-fire", lambda a, r: r is not None)],
-            prop_map={"safety": ["C01"], "frame": ["C12", "C15"], "cover": ["C19"]}, only_prop=prop)
+            prop_map={"safety": ["C01"], "frame": ["C12", "C15", "C14"], "cover": ["C19"]}, only_prop=prop)
         for o in obs:
             o.kind = "rule"
         return obs, info
@@ -49,7 +49,7 @@ for _n, _ps in {
     "ruleDDMM": "C05 C04 C02", "ruleMMDD": "C05 C04 C02", "ruleDOYYear": "C05 C02", "ruleDDMMYYYY": "C05 C02",
     "ruleDOWDate": "C05", "ruleDateDOW": "C05", "ruleDateTOD": "C20 C05", "ruleTODDate": "C20 C05",
     "ruleDatePOD": "C20", "rulePODDate": "C20", "ruleAbsorbOnTime": "C20", "ruleAbsorbFromInterval": "C07",
-    "ruleHHMM": "C06 C11", "ruleHHMMmilitary": "C05 C06 C11", "ruleHHOClock": "C06", "ruleNamedHour": "C06",
+    "ruleHHMM": "C06 C11 C05", "ruleHHMMmilitary": "C05 C06 C11", "ruleHHOClock": "C06", "ruleNamedHour": "C06",
     "ruleMidnight": "C06", "ruleQuarterBeforeHH": "C06", "ruleHalfBeforeHH": "C06", "ruleQuarterAfterHH": "C06",
     "ruleHalfAfterHH": "C06", "ruleTODPOD": "C06", "rulePODTOD": "C06",
     "ruleBeforeTime": "C07", "ruleAfterTime": "C07", "ruleDateDate": "C07", "ruleDOMDate": "C07",
